@@ -89,6 +89,7 @@ package keeper
 //@      raw == (len(ownerOf(old(raw), provider)) == 0 ? r1[KOwner(provider) := enc_BytesValue(mkBytesValue(owner))][KOwnerProv(owner, provider) := emptyVal] : r1))
 //@ ensures error_changes_nothing: err != NoErr ==> raw == old(raw) && bal == old(bal)
 //@ requires a2_provider_present: len(provider) > 0
+//@ requires a2_owner_present: len(owner) > 0
 //@ ensures [C15] definitions_bindings_and_provider_owners_are_for_life: forLife(old(raw), raw)
 
 //@ func (Keeper).UpdateServiceBinding
@@ -151,13 +152,13 @@ package keeper
 
 //@ func (Keeper).PauseRequestContext
 //@ vars (keeper.Keeper).PauseRequestContext: k=github.com/irismod/service/keeper.Keeper#0 ctx=github.com/cosmos/cosmos-sdk/types.Context#0 requestContextID=github.com/tendermint/tendermint/libs/bytes.HexBytes#0 consumer=github.com/cosmos/cosmos-sdk/types.AccAddress#0 requestContext=github.com/irismod/service/types.RequestContext#0 found=bool#0 err=error#0
-//@ preserves [C01,C02,C16,C11] pending_requests_stay_well_formed: actInv(raw)
+//@ preserves [C01,C02,C16,C11,C04] pending_requests_stay_well_formed: actInv(raw)
 //@ props C09 C05
 //@ preserves [C16] both_pending_indexes_list_the_same_requests: idxInv(raw)
 //@ preserves [C16] no_orphan_request_or_response_record: recInv(raw)
 //@ preserves [C10] never_more_batches_than_the_largest_total: cadInv(raw, ghostMaxTot)
 //@ preserves [C11] no_event_in_the_past: futInv(raw, ctxHeight(ctx))
-//@ preserves [C12,C16,C08] open_batches_count_their_pending_requests: cntInv(raw)
+//@ preserves [C12,C16,C08,C04] open_batches_count_their_pending_requests: cntInv(raw)
 //@ preserves [C11] queues_stay_well_formed: schedInv(raw)
 //@ modifies raw
 //@ ensures [C09] only_repeated_running: err == NoErr ==> (let c := ctxOf(old(raw), requestContextID) in ctxFound(old(raw), requestContextID) && c.Repeated && c.State == RUNNING)
@@ -167,7 +168,7 @@ package keeper
 
 //@ func (Keeper).StartRequestContext
 //@ vars (keeper.Keeper).StartRequestContext: k=github.com/irismod/service/keeper.Keeper#0 ctx=github.com/cosmos/cosmos-sdk/types.Context#0 requestContextID=github.com/tendermint/tendermint/libs/bytes.HexBytes#0 consumer=github.com/cosmos/cosmos-sdk/types.AccAddress#0 requestContext=github.com/irismod/service/types.RequestContext#0 found=bool#0 err=error#0 needsNewBatch=bool#1 remaining=bool#2
-//@ preserves [C01,C02,C16,C11] pending_requests_stay_well_formed: actInv(raw)
+//@ preserves [C01,C02,C16,C11,C04] pending_requests_stay_well_formed: actInv(raw)
 //@ props C09 C05 C10 C11 C16 C08 C04 C02 C01
 //@ preserves [C16] both_pending_indexes_list_the_same_requests: idxInv(raw)
 //@ preserves [C16] no_orphan_request_or_response_record: recInv(raw)
@@ -177,7 +178,7 @@ package keeper
 //@ ensures [C10] never_more_batches_than_the_largest_total_kept_when_restarted_after_the_last_batch: err == NoErr ==> (let c := ctxOf(old(raw), requestContextID) in
 //@      !(hasExp(old(raw), requestContextID) || hasNew(old(raw), requestContextID) || (c.Repeated ? c.BatchCounter < effTotal(c) : c.BatchCounter == 0)) ==> cadInv(raw, ghostMaxTot))
 //@ preserves [C11] no_event_in_the_past: futInv(raw, ctxHeight(ctx))
-//@ preserves [C12,C16,C08] open_batches_count_their_pending_requests: cntInv(raw)
+//@ preserves [C12,C16,C08,C04] open_batches_count_their_pending_requests: cntInv(raw)
 //@ preserves [C11] queues_stay_well_formed: schedInv(raw)
 //@ modifies raw
 //@ ensures [C09] only_paused: err == NoErr ==> ctxFound(old(raw), requestContextID) && ctxOf(old(raw), requestContextID).State == PAUSED
@@ -192,13 +193,13 @@ package keeper
 
 //@ func (Keeper).KillRequestContext
 //@ vars (keeper.Keeper).KillRequestContext: k=github.com/irismod/service/keeper.Keeper#0 ctx=github.com/cosmos/cosmos-sdk/types.Context#0 requestContextID=github.com/tendermint/tendermint/libs/bytes.HexBytes#0 consumer=github.com/cosmos/cosmos-sdk/types.AccAddress#0 requestContext=github.com/irismod/service/types.RequestContext#0 found=bool#0 err=error#0
-//@ preserves [C01,C02,C16,C11] pending_requests_stay_well_formed: actInv(raw)
+//@ preserves [C01,C02,C16,C11,C04] pending_requests_stay_well_formed: actInv(raw)
 //@ props C09 C05
 //@ preserves [C16] both_pending_indexes_list_the_same_requests: idxInv(raw)
 //@ preserves [C16] no_orphan_request_or_response_record: recInv(raw)
 //@ preserves [C10] never_more_batches_than_the_largest_total: cadInv(raw, ghostMaxTot)
 //@ preserves [C11] no_event_in_the_past: futInv(raw, ctxHeight(ctx))
-//@ preserves [C12,C16,C08] open_batches_count_their_pending_requests: cntInv(raw)
+//@ preserves [C12,C16,C08,C04] open_batches_count_their_pending_requests: cntInv(raw)
 //@ preserves [C11] queues_stay_well_formed: schedInv(raw)
 //@ modifies raw
 //@ ensures [C09] only_repeated: err == NoErr ==> ctxFound(old(raw), requestContextID) && ctxOf(old(raw), requestContextID).Repeated
@@ -208,14 +209,14 @@ package keeper
 
 //@ func (Keeper).UpdateRequestContext
 //@ vars (keeper.Keeper).UpdateRequestContext: k=github.com/irismod/service/keeper.Keeper#0 ctx=github.com/cosmos/cosmos-sdk/types.Context#0 requestContextID=github.com/tendermint/tendermint/libs/bytes.HexBytes#0 providers=[]github.com/cosmos/cosmos-sdk/types.AccAddress#0 respThreshold=uint32#0 serviceFeeCap=github.com/cosmos/cosmos-sdk/types.Coins#0 timeout=int64#0 repeatedFreq=uint64#0 repeatedTotal=int64#1 consumer=github.com/cosmos/cosmos-sdk/types.AccAddress#0 requestContext=github.com/irismod/service/types.RequestContext#0 found=bool#0 err=error#0 err=error#1 err=error#2 maxRequestTimeout=int64#2
-//@ preserves [C01,C02,C16,C11] pending_requests_stay_well_formed: actInv(raw)
+//@ preserves [C01,C02,C16,C11,C04] pending_requests_stay_well_formed: actInv(raw)
 //@ props C09 C05 C10
 //@ preserves [C16] both_pending_indexes_list_the_same_requests: idxInv(raw)
 //@ preserves [C16] no_orphan_request_or_response_record: recInv(raw)
 //@ requires [C10] never_more_batches_than_the_largest_total: cadInv(raw, ghostMaxTot)
 //@ ensures [C10] never_more_batches_than_the_largest_total_kept: err == NoErr ==> cadInv(raw, maxNext(ghostMaxTot, raw))
 //@ preserves [C11] no_event_in_the_past: futInv(raw, ctxHeight(ctx))
-//@ preserves [C12,C16,C08] open_batches_count_their_pending_requests: cntInv(raw)
+//@ preserves [C12,C16,C08,C04] open_batches_count_their_pending_requests: cntInv(raw)
 //@ preserves [C11] queues_stay_well_formed: schedInv(raw)
 //@ modifies raw
 //@ requires [C09] stored_context_in_range: ctxFound(raw, requestContextID) ==> rng_RequestContext(ctxOf(raw, requestContextID))
@@ -310,7 +311,7 @@ package keeper
 
 //@ func (Keeper).WithdrawEarnedFees
 //@ vars (keeper.Keeper).WithdrawEarnedFees: k=github.com/irismod/service/keeper.Keeper#0 ctx=github.com/cosmos/cosmos-sdk/types.Context#0 owner=github.com/cosmos/cosmos-sdk/types.AccAddress#0 provider=github.com/cosmos/cosmos-sdk/types.AccAddress#1 providerOwner=github.com/cosmos/cosmos-sdk/types.AccAddress#2 ownerEarnedFees=github.com/cosmos/cosmos-sdk/types.Coins#0 found=bool#0 withdrawFees=github.com/cosmos/cosmos-sdk/types.Coins#1 earnedFees=github.com/cosmos/cosmos-sdk/types.Coins#2 found=bool#1 iterator=github.com/cosmos/cosmos-sdk/types.Iterator#0 provider=github.com/cosmos/cosmos-sdk/types.AccAddress#3 withdrawAddr=github.com/cosmos/cosmos-sdk/types.AccAddress#4
-//@ props C13 C05 C01
+//@ props C13 C05 C01 C18
 //@ modifies raw, bal
 //@ requires signer_address: len(owner) == 20
 //@ requires [C13] owner_total_covers_provider: forall d Str :: pfxSum(raw, POwnerEarned(owner), d) >= pfxSum(raw, PEarned(provider), d)
@@ -389,8 +390,8 @@ package keeper
 //@ preserves [C10] never_more_batches_than_the_largest_total: cadInv(raw, ghostMaxTot)
 //@ preserves [C11] no_event_in_the_past: futInv(raw, ctxHeight(ctx))
 //@ preserves [C11] queues_stay_well_formed: schedInv(raw)
-//@ preserves [C12,C16,C08] open_batches_count_their_pending_requests: cntInv(raw)
-//@ preserves [C16,C08,C02,C01] pending_requests_stay_well_formed: actInv(raw)
+//@ preserves [C12,C16,C08,C04] open_batches_count_their_pending_requests: cntInv(raw)
+//@ preserves [C16,C08,C02,C01,C04] pending_requests_stay_well_formed: actInv(raw)
 //@ after pending_requests_stay_well_formed_kept assume open_batches_count_their_pending_requests_kept
 //@ modifies raw, bal, supply, cblog
 //@ preserves wf: WF(raw)
@@ -495,7 +496,7 @@ package keeper
 // ---------------------------------------------------------------- batch clean-up (C16)
 //@ func (Keeper).CleanBatch
 //@ vars (keeper.Keeper).CleanBatch: k=github.com/irismod/service/keeper.Keeper#0 ctx=github.com/cosmos/cosmos-sdk/types.Context#0 requestContext=github.com/irismod/service/types.RequestContext#0 requestContextID=github.com/tendermint/tendermint/libs/bytes.HexBytes#0 iterator=github.com/cosmos/cosmos-sdk/types.Iterator#0 requestID=[]byte#0
-//@ props C16
+//@ props C16 C18
 //@ modifies raw
 //@ loop 0 invariant pos_in_range: 0 <= iterator_pos && iterator_pos <= itCount(iterator_snap, iterator_pfx)
 //@ loop 0 invariant snapshot: iterator_snap == old(raw) && iterator_pfx == PReqByCtx(requestContextID, requestContext.BatchCounter)
@@ -518,9 +519,9 @@ package keeper
 //@ requires [C10] never_more_batches_than_the_largest_total: cadInv(raw, ghostMaxTot)
 //@ ensures [C10] never_more_batches_than_the_largest_total_kept: err == NoErr ==> cadInv(raw, maxNext(ghostMaxTot, raw))
 //@ preserves [C11] no_event_in_the_past: futInv(raw, ctxHeight(ctx))
-//@ preserves [C12,C16,C08] open_batches_count_their_pending_requests: cntInv(raw)
+//@ preserves [C12,C16,C08,C04] open_batches_count_their_pending_requests: cntInv(raw)
 //@ preserves [C11] queues_stay_well_formed: schedInv(raw)
-//@ preserves [C16,C08,C02,C01] pending_requests_stay_well_formed: actInv(raw)
+//@ preserves [C16,C08,C02,C01,C04] pending_requests_stay_well_formed: actInv(raw)
 //@ modifies raw
 //@ requires in_range: 0 <= repeatedFrequency && repeatedFrequency <= 18446744073709551615 && 0 <= responseThreshold && responseThreshold <= 4294967295 && 0 <= state && state <= 2
 //@ requires a4_fresh_id: !ctxFound(raw, mkCtxID(ctxTxHash(ctx), ctxMsgIndex(ctx)))
@@ -547,12 +548,19 @@ package keeper
 // ---------------------------------------------------------------- gRPC queries (C17): each returns exactly the stored view
 //@ func (Keeper).GetOwnerServiceBindings
 //@ vars (keeper.Keeper).GetOwnerServiceBindings: k=github.com/irismod/service/keeper.Keeper#0 ctx=github.com/cosmos/cosmos-sdk/types.Context#0 owner=github.com/cosmos/cosmos-sdk/types.AccAddress#0 serviceName=string#0 store=github.com/cosmos/cosmos-sdk/types.KVStore#0 bindings=[]*github.com/irismod/service/types.ServiceBinding#0 iterator=github.com/cosmos/cosmos-sdk/types.Iterator#0 bindingKey=[]byte#0 sepIndex=int#0 serviceName=string#1 provider=github.com/cosmos/cosmos-sdk/types.AccAddress#1 binding=github.com/irismod/service/types.ServiceBinding#0 found=bool#0
-//@ props C17 C15
+//@ props C17 C15 C18
 //@ requires owner_address: len(owner) == 20
 //@ loop 0 invariant pos_in_range: 0 <= iterator_pos && iterator_pos <= itCount(iterator_snap, iterator_pfx)
 //@ loop 0 invariant snapshot: iterator_snap == raw && iterator_pfx == POwnerBind(owner, serviceName)
 //@ loop 0 invariant listed_so_far: bindings == ownerBindsIt(iterator_snap, iterator_pfx, iterator_pos)
+//@ loop 0 invariant one_binding_per_index_entry: WF(raw) ==> len(bindings) == iterator_pos && (forall j Int :: {bindings[j]} 0 <= j && j < iterator_pos ==>
+//@      bindings[j] == bindOf(raw, serviceName, kob_prov(itKey(raw, POwnerBind(owner, serviceName), j))) && bindFound(raw, serviceName, kob_prov(itKey(raw, POwnerBind(owner, serviceName), j))))
 //@ ensures [C17,C15] exactly_the_owners_bindings_of_the_service: result == ownerBindsIt(raw, POwnerBind(owner, serviceName), itCount(raw, POwnerBind(owner, serviceName)))
+//@ ensures [C15,C17] every_listed_binding_is_a_stored_binding_of_this_owner_and_service: WF(raw) ==> (forall j Int :: {result[j]} 0 <= j && j < len(result) ==>
+//@      result[j].Owner == owner && result[j].ServiceName == serviceName && bindFound(raw, serviceName, result[j].Provider) && result[j] == bindOf(raw, serviceName, result[j].Provider))
+//@ ensures [C15,C17] every_stored_binding_of_this_owner_and_service_is_listed_once: WF(raw) ==> len(result) == itCount(raw, POwnerBind(owner, serviceName)) &&
+//@      (forall p Bytes :: {raw[KBind(serviceName, p)]} bindFound(raw, serviceName, p) && bindOf(raw, serviceName, p).Owner == owner ==>
+//@        (let j := itIdx(raw, POwnerBind(owner, serviceName), KOwnerBind(owner, serviceName, p)) in 0 <= j && j < len(result) && result[j] == bindOf(raw, serviceName, p)))
 
 //@ func (Keeper).Definition
 //@ vars (keeper.Keeper).Definition: k=github.com/irismod/service/keeper.Keeper#0 c=context.Context#0 req=*github.com/irismod/service/types.QueryDefinitionRequest#0 ctx=github.com/cosmos/cosmos-sdk/types.Context#0 definition=github.com/irismod/service/types.ServiceDefinition#0 found=bool#0
@@ -603,7 +611,7 @@ package keeper
 
 //@ func (Keeper).RequestsByReqCtx
 //@ vars (keeper.Keeper).RequestsByReqCtx: k=github.com/irismod/service/keeper.Keeper#0 c=context.Context#0 req=*github.com/irismod/service/types.QueryRequestsByReqCtxRequest#0 ctx=github.com/cosmos/cosmos-sdk/types.Context#0 iterator=github.com/cosmos/cosmos-sdk/types.Iterator#0 requests=[]*github.com/irismod/service/types.Request#0 requestID=[]byte#0 request=github.com/irismod/service/types.Request#0
-//@ props C17
+//@ props C17 C18
 //@ requires in_range: 0 <= req.BatchCounter && req.BatchCounter <= 18446744073709551615
 //@ loop 0 invariant pos_in_range: 0 <= iterator_pos && iterator_pos <= itCount(iterator_snap, iterator_pfx)
 //@ loop 0 invariant snapshot: iterator_snap == raw && iterator_pfx == PReqByCtx(req.RequestContextId, req.BatchCounter)
@@ -692,7 +700,7 @@ package keeper
 
 //@ func queryRequestsByReqCtx
 //@ vars keeper.queryRequestsByReqCtx: ctx=github.com/cosmos/cosmos-sdk/types.Context#0 req=github.com/tendermint/tendermint/abci/types.RequestQuery#0 k=github.com/irismod/service/keeper.Keeper#0 legacyQuerierCdc=*github.com/cosmos/cosmos-sdk/codec.LegacyAmino#0 params=github.com/irismod/service/types.QueryRequestsByReqCtxParams#0 err=error#0 iterator=github.com/cosmos/cosmos-sdk/types.Iterator#0 requests=[]github.com/irismod/service/types.Request#0 requestID=[]byte#0 request=github.com/irismod/service/types.Request#0 bz=[]byte#1 err=error#1
-//@ props C17
+//@ props C17 C18
 //@ loop 0 invariant pos_in_range: 0 <= iterator_pos && iterator_pos <= itCount(iterator_snap, iterator_pfx)
 //@ loop 0 invariant snapshot: iterator_snap == raw && iterator_pfx == PReqByCtx(params.RequestContextID, params.BatchCounter)
 //@ loop 0 invariant listed_so_far: requests == reqsByKeyIt(iterator_snap, iterator_pfx, iterator_pos)
@@ -743,7 +751,7 @@ package keeper
 //@ func (Keeper).ResetRequestContextsStateAndBatch
 //@ vars (keeper.Keeper).ResetRequestContextsStateAndBatch: k=github.com/irismod/service/keeper.Keeper#0 ctx=github.com/cosmos/cosmos-sdk/types.Context#0
 //@ vars (keeper.Keeper).IterateRequestContexts: k=github.com/irismod/service/keeper.Keeper#0 ctx=github.com/cosmos/cosmos-sdk/types.Context#0 op=func#0 requestContextID=github.com/tendermint/tendermint/libs/bytes.HexBytes#0 requestContext=github.com/irismod/service/types.RequestContext#0 stop=bool#0 store=github.com/cosmos/cosmos-sdk/types.KVStore#0 iterator=github.com/cosmos/cosmos-sdk/types.Iterator#0 requestContextID=[]byte#0 requestContext=github.com/irismod/service/types.RequestContext#1 stop=bool#1
-//@ props C19
+//@ props C19 C18
 //@ modifies raw
 //@ loop IterateRequestContexts.0 invariant pos_in_range: 0 <= iterator_pos && iterator_pos <= itCount(iterator_snap, iterator_pfx)
 //@ loop IterateRequestContexts.0 invariant snapshot: iterator_snap == old(raw) && iterator_pfx == PAllCtx
@@ -771,8 +779,8 @@ package keeper
 //@ modifies raw, bal, supply, cblog
 //@ preserves wf: WF(raw)
 //@ preserves [C03] deposits_in_custody: depInv(raw, bal)
-//@ preserves [C16] pending_requests_stay_well_formed: actInv(raw)
-//@ preserves [C12] open_batches_count_their_pending_requests: cntInv(raw)
+//@ preserves [C16,C04] pending_requests_stay_well_formed: actInv(raw)
+//@ preserves [C12,C04] open_batches_count_their_pending_requests: cntInv(raw)
 //@ requires [C11] the_first_batch_is_queued: futInv(raw, ctxHeight(ctx)) && cadInv(raw, ghostMaxTot) && schedInv(raw)
 //@ ensures [C11,C10] invariants_after_the_immediate_batch: err == NoErr ==> futInv(raw, ctxHeight(ctx)) && cadInv(raw, ghostMaxTot) && schedInv(raw)
 //@ requires just_created: ctxFound(raw, reqContextID) && rng_RequestContext(ctxOf(raw, reqContextID)) && ctxOf(raw, reqContextID).BatchCounter == 0 && !ctxOf(raw, reqContextID).Repeated &&
